@@ -4,7 +4,6 @@ import (
 	"errors"
 	"net"
 	"strconv"
-	"strings"
 )
 
 const hexDigit = "0123456789abcdef"
@@ -293,10 +292,12 @@ func IsFqdn(s string) bool {
 
 	// Otherwise we have to check if the dot is escaped or not by checking if
 	// there are an odd or even number of escape sequences before the dot.
-	i := strings.LastIndexFunc(s, func(r rune) bool {
-		return r != '\\'
-	})
-	return (len(s)-i)%2 != 0
+	// Count octets, not runes: the name is a string of octets.
+	n := 0
+	for i := len(s) - 1; i >= 0 && s[i] == '\\'; i-- {
+		n++
+	}
+	return n%2 == 0
 }
 
 // IsRRset reports whether a set of RRs is a valid RRset as defined by RFC 2181.
